@@ -16,6 +16,7 @@ from rules.c17 import validated_bpb_fields
 
 
 def run(ctx, rep):
+    run_cluster_bounds(ctx, rep)
     facts = ctx.facts
     # ---------------- W1a overflow / division sites of the offset arithmetic
     allpanics.run_scope(ctx, rep, 'C20', 'W1', 'in the offset arithmetic')
@@ -133,3 +134,57 @@ def run(ctx, rep):
             rep.violation('W2', vkey('W2', AC.name, 'wrap-around', ''), AC.loc(AC.span),
                           'the free-cluster search does not wrap around to [2, start) when the scan from the hint finds '
                           'nothing (%s): a volume with free clusters below the hint reports out-of-space' % why)
+
+
+def run_cluster_bounds(ctx, rep):
+    """W4: cluster numbers are biased by the two reserved FAT entries: every test of a cluster *number* against a bound
+    derived from total_clusters carries a `+ 2` / `- 2` (valid numbers are 2 ..= total_clusters + 1). A bound without it
+    cuts off the last two clusters of the volume (or admits two padding entries)."""
+    import re
+    facts = ctx.facts
+    name_rx = re.compile(r'(^|_)cluster$|^cluster_|_cluster_')
+    n = 0
+    for fn in facts.fns.values():
+        if fn.crate != 'fatfs' or not fn.blocks:
+            continue
+        d = None
+
+        def side_info(toks):
+            has_total = any((tk[0] == 'call' and tk[1].endswith('::total_clusters')) or tk == ('field', 'total_clusters') or
+                            (tk[0] in ('local', 'param') and (fn.locals[tk[1]].get('name') or '') == 'total_clusters')
+                            for tk in toks)
+            names = {fn.locals[tk[1]].get('name') for tk in toks if tk[0] in ('local', 'param')} - {None}
+            fields = {tk[1] for tk in toks if tk[0] == 'field'}
+            is_number = any(name_rx.search(x) for x in names | fields if 'clusters' not in x) and \
+                not any('count' in x for x in names | fields)
+            return has_total, is_number
+
+        cands = []
+        for bi in sorted(fn.reachable()):
+            for s in fn.blocks[bi]['stmts']:
+                if s['k'] == 'assign' and s['rv']['k'] == 'binop' and s['rv']['op'] in ('Lt', 'Le', 'Gt', 'Ge'):
+                    cands.append((bi, s['span'], [s['rv']['a']], [s['rv']['b']]))
+            t = fn.blocks[bi]['term']
+            if t['k'] == 'call' and (t.get('callee') or '').endswith(('RangeInclusive::contains', 'Range::contains')) and \
+                    len(t['args']) == 2:
+                cands.append((bi, t['span'], [t['args'][0]], [t['args'][1]]))
+        for bi, span, xs, ys in cands:
+            if d is None:
+                d = Deps(fn)
+            tx = set().union(*[d.of_operand(o) for o in xs])
+            ty = set().union(*[d.of_operand(o) for o in ys])
+            (tot_x, num_x), (tot_y, num_y) = side_info(tx), side_info(ty)
+            if not ((tot_x and not tot_y and num_y) or (tot_y and not tot_x and num_x)):
+                continue
+            n += 1
+            allt = tx | ty
+            biased = (('const', 2) in allt or any(tk[0] == 'constpath' and tk[1].endswith('RESERVED_FAT_ENTRIES') for tk in allt)) \
+                and (('op', 'Add') in allt or ('op', 'Sub') in allt)
+            rep.oblige('W4', '%s|bb%d' % (fn.name, bi), ok=biased, nontrivial=True,
+                       sample={'fn': fn.name, 'at': fn.loc(span), 'expr': span['snip'][:70]})
+            if not biased:
+                rep.violation('W4', vkey('W4', fn.name, 'cluster-bound', span['snip']), fn.loc(span),
+                              'a cluster number is tested against a bound derived from total_clusters without the bias of the '
+                              'two reserved FAT entries (valid numbers are 2 ..= total_clusters + 1): the last clusters of '
+                              'the volume are cut off or padding entries admitted')
+    rep.counts['W4.sites'] = n
